@@ -561,7 +561,8 @@ func init() {
 			}
 			runCfg(r, specs, raw, paths)
 		}
-		c.close([]string{"cfg:ok", "cfg:n>12", "cfg:rawpath", "decision:upstream", "decision:301", "decision:404",
+		legacyUpstreamsViaLoader(c)
+		c.close([]string{"legacy-upstreams:loader", "cfg:ok", "cfg:n>12", "cfg:rawpath", "decision:upstream", "decision:301", "decision:404",
 			"served:rewrite", "served:prefix", "served:exact", "monitor:longest-match", "req:unclean", "rawpath:first-only",
 			"decision:rewrite-error-500"})
 	})
